@@ -10,10 +10,17 @@
            hi > 0  the segment contains a newer event          -> must survive
            hi = 0  exactly at the horizon: the statement ("older than") leaves it open
      w     weight: bytesReceivedCount class (volume pass) / inode count class (inode pass)
+     m     multiplicity: the record stands for m rotated segments of the same index with
+           IDENTICAL [lo, hi] (distinct keys) - two streams receiving the same batch, or
+           second-granular timestamps.  Equal lo / hi of different records also mean
+           identical times (the binding keeps equalities: a tie in the model is a tie in ms).
 
    Durable state: files (segment directories), smeta (segmeta.json), mmeta
    (metricmeta.json), pq (segment keys listed in an empty-PQ meta file).
-   Volatile state: mem (in-memory segment metadata = what queries search).
+   Volatile state: mem (in-memory segment metadata: allSegmentMicroIndex + the reverse index,
+   updated together; for metrics segments the metrics metadata) and sorted (the per-table list
+   tableSortedMetadata[table], kept in DESCENDING latest time, ties in any order - this is what
+   FilterSegmentsByTime walks, i.e. what every query uses to pick segments).
 
    One pass (internalRetentionCleaner calls the three kinds in a row):
      StartPass        victim selection: DoRetentionBasedDeletion (hi <= horizon),
@@ -52,18 +59,22 @@ CONSTANTS MaxSegs,        \* segment sets of 1..MaxSegs segments
           MaxCrash,       \* interruptions per behaviour
           MaxRepeat,      \* plain repetitions of the completed pass
           DetOrder,       \* BOOLEAN: per-victim loops run in id order (generation) / any order
+          Mults,          \* multiplicities (at most one record of a set has m > 1, always a log record)
+          SortedDel,      \* how deleteSegmentKeyWithLock finds the entry in the per-table list:
+                          \* "scan" (as coded: walk the list, compare keys) / "bsearch" (model mutant:
+                          \* first entry with that latest time, then compare the key - wrong under ties)
           MetKeyWraps, SkipTooBig, PqIdsLoaded, InodeCleansDangling
 
 VARIABLES segs,           \* [1..n -> segment record]
           kind, limit, openw,
-          files, mem, smeta, mmeta, pq,
+          files, mem, sorted, smeta, mmeta, pq,
           pc, vL, vM, todo,
           crashes, repeats,
           ref             \* ghost: survivors of the first, uninterrupted selection
-vars == <<segs, kind, limit, openw, files, mem, smeta, mmeta, pq, pc, vL, vM, todo, crashes, repeats, ref>>
+vars == <<segs, kind, limit, openw, files, mem, sorted, smeta, mmeta, pq, pc, vL, vM, todo, crashes, repeats, ref>>
 
-SegClasses == {r \in [kind : Kinds, lo : Times, hi : Times, w : Weights] :
-                  r.lo <= r.hi /\ (Straddle \/ r.lo = r.hi)}
+SegClasses == {r \in [kind : Kinds, lo : Times, hi : Times, w : Weights, m : Mults] :
+                  r.lo <= r.hi /\ (Straddle \/ r.lo = r.hi) /\ (r.m > 1 => r.kind = "log")}
 Ids == DOMAIN segs
 LogIds == {s \in Ids : segs[s].kind = "log"}
 MetIds == {s \in Ids : segs[s].kind = "met"}
@@ -71,6 +82,23 @@ Listed == smeta \cup mmeta
 
 RECURSIVE SumW(_)
 SumW(S) == IF S = {} THEN 0 ELSE LET s == CHOOSE x \in S : TRUE IN segs[s].w + SumW(S \ {s})
+
+\* every content the per-table list may have for the log segments S: descending latest time, ties in any
+\* order (bulkAddSegmentMicroIndex appends and sort.Slice-s; sort.Slice is not stable)
+SortedLists(S) == {q \in [1..Cardinality(S) -> S] :
+                     /\ \A i, j \in 1..Cardinality(S) : i # j => q[i] # q[j]
+                     /\ \A i, j \in 1..Cardinality(S) : i < j => segs[q[i]].hi >= segs[q[j]].hi}
+InSorted(s) == \E i \in 1..Len(sorted) : sorted[i] = s
+RemoveAt(q, p) == [i \in 1..(Len(q) - 1) |-> IF i < p THEN q[i] ELSE q[i + 1]]
+\* deleteSegmentKeyWithLock on the per-table list
+SortedWithout(s) ==
+  IF ~InSorted(s) THEN sorted
+  ELSE IF SortedDel = "scan"
+       THEN RemoveAt(sorted, CHOOSE i \in 1..Len(sorted) : sorted[i] = s)
+       ELSE LET p == CHOOSE i \in 1..Len(sorted) :
+                        /\ segs[sorted[i]].hi <= segs[s].hi
+                        /\ \A j \in 1..(i - 1) : segs[sorted[j]].hi > segs[s].hi
+            IN IF sorted[p] = s THEN RemoveAt(sorted, p) ELSE sorted
 
 MinOf(S) == CHOOSE x \in S : \A y \in S : x <= y
 Pick(S) == IF DetOrder THEN {MinOf(S)} ELSE S
@@ -128,7 +156,9 @@ Init ==
   /\ kind \in PassKinds
   /\ limit \in (IF kind = "time" THEN {0} ELSE Limits)
   /\ openw \in (IF kind = "volume" THEN OpenWs ELSE {0})
+  /\ Cardinality({s \in Ids : segs[s].m > 1}) <= 1
   /\ files = Ids /\ mem = Ids /\ smeta = LogIds /\ mmeta = MetIds
+  /\ sorted \in SortedLists(LogIds)
   /\ pq \in (IF WithPq THEN SUBSET LogIds ELSE {{}})
   /\ pc = "idle" /\ vL = {} /\ vM = {} /\ todo = {}
   /\ crashes = 0 /\ repeats = 0
@@ -147,19 +177,20 @@ StartPass ==
        /\ IF v \cap LogIds # {}
           THEN pc' = "l_files" /\ todo' = v \cap LogIds
           ELSE pc' = AfterLog(v \cap MetIds) /\ todo' = v \cap MetIds
-  /\ UNCHANGED <<segs, kind, limit, openw, files, mem, smeta, mmeta, pq, crashes, repeats>>
+  /\ UNCHANGED <<segs, kind, limit, openw, files, mem, sorted, smeta, mmeta, pq, crashes, repeats>>
 
 \* step 2 of DeleteSegmentData: writer.RemoveSegBasedirs (one directory per iteration)
 RemoveDir(s) ==
   /\ pc = "l_files" /\ s \in Pick(todo)
   /\ files' = files \ {s}
   /\ IF todo = {s} THEN pc' = "l_mem" /\ todo' = vL ELSE pc' = pc /\ todo' = todo \ {s}
-  /\ UNCHANGED <<segs, kind, limit, openw, mem, smeta, mmeta, pq, vL, vM, crashes, repeats, ref>>
+  /\ UNCHANGED <<segs, kind, limit, openw, mem, sorted, smeta, mmeta, pq, vL, vM, crashes, repeats, ref>>
 
 \* step 3: segmetadata.DeleteSegmentKey per victim
 MemDel(s) ==
   /\ pc = "l_mem" /\ s \in Pick(todo)
   /\ mem' = mem \ {s}
+  /\ sorted' = SortedWithout(s)
   /\ IF todo = {s} THEN pc' = "l_pq" /\ todo' = {} ELSE pc' = pc /\ todo' = todo \ {s}
   /\ UNCHANGED <<segs, kind, limit, openw, files, smeta, mmeta, pq, vL, vM, crashes, repeats, ref>>
 
@@ -168,14 +199,14 @@ PqDel ==
   /\ pc = "l_pq"
   /\ pq' = IF PqIdsLoaded THEN pq \ vL ELSE pq
   /\ pc' = "l_segmeta"
-  /\ UNCHANGED <<segs, kind, limit, openw, files, mem, smeta, mmeta, vL, vM, todo, crashes, repeats, ref>>
+  /\ UNCHANGED <<segs, kind, limit, openw, files, mem, sorted, smeta, mmeta, vL, vM, todo, crashes, repeats, ref>>
 
 \* step 5: writer.RemoveSegMetas (tmp file + rename: atomic)
 SegmetaRewrite ==
   /\ pc = "l_segmeta"
   /\ smeta' = smeta \ vL
   /\ pc' = AfterLog(vM) /\ todo' = vM
-  /\ UNCHANGED <<segs, kind, limit, openw, files, mem, mmeta, pq, vL, vM, crashes, repeats, ref>>
+  /\ UNCHANGED <<segs, kind, limit, openw, files, mem, sorted, mmeta, pq, vL, vM, crashes, repeats, ref>>
 
 \* DeleteMetricsSegmentData: segmetadata.DeleteMetricsSegmentKey per victim
 \* (assumption: the 5 s refresh loop has loaded every listed metrics segment; otherwise the
@@ -184,27 +215,28 @@ MMemDel(m) ==
   /\ pc = "m_mem" /\ m \in Pick(todo) /\ m \in mem
   /\ mem' = mem \ {m}
   /\ IF todo = {m} THEN pc' = "m_files" /\ todo' = vM ELSE pc' = pc /\ todo' = todo \ {m}
-  /\ UNCHANGED <<segs, kind, limit, openw, files, smeta, mmeta, pq, vL, vM, crashes, repeats, ref>>
+  /\ UNCHANGED <<segs, kind, limit, openw, files, sorted, smeta, mmeta, pq, vL, vM, crashes, repeats, ref>>
 
 \* mmeta.RemoveMetricsSegments: os.RemoveAll(dir) per removed entry ...
 MRemoveDir(m) ==
   /\ pc = "m_files" /\ m \in Pick(todo)
   /\ files' = files \ {m}
   /\ IF todo = {m} THEN pc' = "m_meta" /\ todo' = {} ELSE pc' = pc /\ todo' = todo \ {m}
-  /\ UNCHANGED <<segs, kind, limit, openw, mem, smeta, mmeta, pq, vL, vM, crashes, repeats, ref>>
+  /\ UNCHANGED <<segs, kind, limit, openw, mem, sorted, smeta, mmeta, pq, vL, vM, crashes, repeats, ref>>
 
 \* ... then metricmeta.json rewritten (tmp + rename) or removed
 MMetaRewrite ==
   /\ pc = "m_meta"
   /\ mmeta' = mmeta \ vM
   /\ pc' = "done"
-  /\ UNCHANGED <<segs, kind, limit, openw, files, mem, smeta, pq, vL, vM, todo, crashes, repeats, ref>>
+  /\ UNCHANGED <<segs, kind, limit, openw, files, mem, sorted, smeta, pq, vL, vM, todo, crashes, repeats, ref>>
 
 \* the process dies at any point of the pass; the next process loads every listed entry
 Crash ==
   /\ pc \notin {"idle", "done"} /\ crashes < MaxCrash
   /\ crashes' = crashes + 1
   /\ mem' = Listed
+  /\ sorted' \in SortedLists(smeta)
   /\ pc' = "idle" /\ vL' = {} /\ vM' = {} /\ todo' = {}
   /\ UNCHANGED <<segs, kind, limit, openw, files, smeta, mmeta, pq, repeats, ref>>
 
@@ -212,7 +244,8 @@ Crash ==
 Repeat ==
   /\ pc = "done" /\ repeats < MaxRepeat
   /\ repeats' = repeats + 1
-  /\ \E restart \in BOOLEAN : mem' = IF restart THEN Listed ELSE mem
+  /\ \E restart \in BOOLEAN :
+       IF restart THEN mem' = Listed /\ sorted' \in SortedLists(smeta) ELSE mem' = mem /\ sorted' = sorted
   /\ pc' = "idle" /\ vL' = {} /\ vM' = {} /\ todo' = {}
   /\ UNCHANGED <<segs, kind, limit, openw, files, smeta, mmeta, pq, crashes, ref>>
 
@@ -225,8 +258,10 @@ Spec == Init /\ [][Next]_vars
 -----------------------------------------------------------------------------
 (* The property, evaluated whenever a pass has completed (also after interruption +
    repetition and after plain repetition). *)
-Alive(s) == s \in files /\ s \in mem /\ s \in Listed
-Gone(s) == s \notin files /\ s \notin mem /\ s \notin Listed /\ s \notin pq
+\* a log segment is selected for search iff it is in the per-table list
+Selected(s) == IF s \in LogIds THEN InSorted(s) ELSE s \in mem
+Alive(s) == s \in files /\ s \in mem /\ Selected(s) /\ s \in Listed
+Gone(s) == s \notin files /\ s \notin mem /\ ~Selected(s) /\ s \notin Listed /\ s \notin pq
 Completed == pc = "done"
 
 \* survivors fully searchable, deleted data gone from search, metadata files list exactly the survivors
@@ -244,6 +279,7 @@ NoNeedlessDeletion ==
   (Completed /\ kind = "volume" /\ SumW(Ids) + openw <= limit) => \A s \in Ids : Alive(s)
 
 TypeOK == /\ pc \in {"idle", "l_files", "l_mem", "l_pq", "l_segmeta", "m_mem", "m_files", "m_meta", "done"}
+          /\ \A i \in 1..Len(sorted) : sorted[i] \in LogIds
           /\ files \subseteq Ids /\ mem \subseteq Ids /\ smeta \subseteq LogIds /\ mmeta \subseteq MetIds
           /\ pq \subseteq LogIds /\ vL \subseteq LogIds /\ vM \subseteq MetIds /\ todo \subseteq Ids
           /\ crashes \in 0..MaxCrash /\ repeats \in 0..MaxRepeat
